@@ -3,6 +3,7 @@ From Coq Require Import List ZArith.
 Require Import Avro.Model.Base Avro.Model.Prim Avro.Model.Schema Avro.Model.GoType
                Avro.Model.Spec Avro.Model.Codec Avro.Model.Denote.
 Require Import Avro.Proofs.Wire Avro.Proofs.BuildP Avro.Proofs.ReadP Avro.Proofs.PrimP.
+Require Import Avro.Model.Container Avro.Proofs.ContainerP Avro.Proofs.FileP Avro.Proofs.EndToEnd.
 Import ListNotations.
 Open Scope Z_scope.
 
@@ -24,6 +25,26 @@ Theorem C03_no_truncation : forall w bs v rest,
   int_read w bs = Done v rest -> int_fits w v = true /\ dec_varint bs = VOk (v, rest).
 Proof. exact int_read_never_truncates. Qed.
 Print Assumptions C03_no_truncation.
+
+(* Through the container: a file whose blocks any conforming writer laid out —
+   each payload a concatenation of specification encodings (any legal block
+   structure inside) of well-typed datums with an image in the target, stored
+   under any codec whose decompressor returns that payload — is read to its end:
+   every record is delivered, in order, with success; and each record's bytes
+   decode to the datum's image whatever follows them (C03_record_value). *)
+Theorem C03_through_container : forall reg s t om c, build reg s t om = Some c ->
+  forall fuel dest decompress sync, len sync = 16 ->
+  forall bl bfuel, Forall (foreign_block_ok s c fuel dest decompress) bl -> (length bl < bfuel)%nat ->
+  read_blocks decompress (rr c fuel dest) (fun _ => None) bfuel sync 0 (concat (map (vb_bytes sync) bl))
+  = (total bl, FOk).
+Proof. intros reg s t om c Hb fuel dest dc sync Hs bl bfuel. exact (foreign_file_reads reg s t om c Hb fuel dest dc sync Hs bl bfuel). Qed.
+Print Assumptions C03_through_container.
+
+Theorem C03_record_value : forall reg s t om c, build reg s t om = Some c ->
+  forall fuel dest r v', spec_record s c fuel dest r v' ->
+  rec_decodes (rr c fuel dest) r /\ forall rest, rv c fuel dest (r ++ rest) = Some v'.
+Proof. intros reg s t om c Hb fuel dest r v'. exact (spec_record_decodes reg s t om c Hb fuel dest r v'). Qed.
+Print Assumptions C03_record_value.
 
 (* non-vacuity: one datum, two legal serialisations, two compatible targets *)
 Example C03_ex :
